@@ -25,6 +25,7 @@ import numpy as np
 
 from .. import core
 from .. import comp_common as cc
+from .. import comp_trace
 
 TABS = None
 MODES = ("elementwise", "pairwise", "pairwise_reversed")
@@ -706,3 +707,8 @@ def run(run, replay=None):
     run.traces += tot
     run.extra["query_cases"] = tot
     run.exhaustive = not quick
+    # code -> spec: random histories of apply / reshape / flatten / index / slice / set item / stack / combine on
+    # larger shapes (dimensions up to 4), validated by TLC against CompositeTrace.tla
+    traces, meta, errors = comp_trace.record(TABS, random.Random(run.seed + 4), ["Point", "HPoint", "PointPair", "Geodesic"],
+                                             (2, 3), 200 if quick else 3000, 10)
+    comp_trace.validate_and_report(run, traces, meta, errors, clause="trace")
